@@ -39,7 +39,9 @@ class Solvers(object):
     @classmethod
     def scipy_lp(cls, p, G, h, A, b, *, method='highs-ds'):
         from scipy.optimize import linprog
-        res = linprog(p, A_ub=G, b_ub=h, A_eq=A, b_eq=b, method=method)
+        # All sign constraints are part of G/h. linprog's default bounds would add x >= 0 for every
+        # variable, including ones the caller left free (the improvement margin epsilon).
+        res = linprog(p, A_ub=G, b_ub=h, A_eq=A, b_eq=b, bounds=(None, None), method=method)
         return Result(
             solution=res.x,
             result=res,
